@@ -59,6 +59,10 @@ pub struct World {
     pub sockets: SocketSet<'static>,
     pub h_tcp: Option<SocketHandle>,
     pub h_udp: Option<SocketHandle>,
+    /// UDP socket that was never bound (no endpoint: must never receive anything)
+    pub h_udp_unbound: Option<SocketHandle>,
+    /// UDP socket that was bound to another port and closed again (no endpoint either)
+    pub h_udp_closed: Option<SocketHandle>,
     pub h_icmp_ident: Option<SocketHandle>,
     pub h_icmp_udp: Option<SocketHandle>,
     pub h_dns: Option<SocketHandle>,
@@ -78,7 +82,9 @@ fn medium_of(m: Med) -> Medium {
 }
 
 impl World {
-    pub fn new(med: Med, ver: Ver, sock: Sock, joined: bool, primed: bool) -> World {
+    /// `strict`: additionally prove that one more poll after the set-up leaves every socket image
+    /// unchanged (costs two extra image computations; done on the re-executions and in replay)
+    pub fn new(med: Med, ver: Ver, sock: Sock, joined: bool, primed: bool, strict: bool) -> World {
         let mtu = match med {
             Med::Eth => 1514,
             Med::Ip => 1500,
@@ -124,6 +130,7 @@ impl World {
 
         let mut sockets = SocketSet::new(vec![]);
         let (mut h_tcp, mut h_udp, mut h_icmp_ident, mut h_icmp_udp, mut h_dns) = (None, None, None, None, None);
+        let (mut h_udp_unbound, mut h_udp_closed) = (None, None);
         if sock != Sock::NoSock {
             let bound = sock == Sock::Bound;
             let ep = |port: u16| -> IpListenEndpoint {
@@ -146,6 +153,29 @@ impl World {
                 errors.push("udp bind failed".into());
             }
             h_udp = Some(sockets.add(u));
+            let mk_udp = || {
+                udp::Socket::new(
+                    udp::PacketBuffer::new(vec![udp::PacketMetadata::EMPTY; 2], vec![0u8; 16]),
+                    udp::PacketBuffer::new(vec![udp::PacketMetadata::EMPTY; 1], vec![0u8; 8]),
+                )
+            };
+            let mut uc = mk_udp();
+            if uc.bind(UDP_PORT + 2).is_err() {
+                errors.push("udp bind failed".into());
+            }
+            uc.close();
+            if uc.is_open() {
+                errors.push("udp close failed".into());
+            }
+            // the first UDP socket that accepts a datagram takes it: let each of the two
+            // endpoint-less sockets come first in some configuration
+            if bound {
+                h_udp_closed = Some(sockets.add(uc));
+                h_udp_unbound = Some(sockets.add(mk_udp()));
+            } else {
+                h_udp_unbound = Some(sockets.add(mk_udp()));
+                h_udp_closed = Some(sockets.add(uc));
+            }
             let mk_icmp = || {
                 icmp::Socket::new(
                     icmp::PacketBuffer::new(vec![icmp::PacketMetadata::EMPTY; 2], vec![0u8; 160]),
@@ -194,6 +224,8 @@ impl World {
             sockets,
             h_tcp,
             h_udp,
+            h_udp_unbound,
+            h_udp_closed,
             h_icmp_ident,
             h_icmp_udp,
             h_dns,
@@ -243,9 +275,9 @@ impl World {
             w.quiesce("dns");
         }
         // the set-up must be quiescent: another poll changes nothing and emits nothing
-        let before = w.images();
+        let before = if strict { w.images() } else { vec![] };
         let outs = w.poll_collect();
-        if !outs.is_empty() || before != w.images() {
+        if !outs.is_empty() || (strict && before != w.images()) {
             w.errors.push("set-up not quiescent".into());
         }
         w
@@ -355,6 +387,12 @@ impl World {
         if let Some(h) = self.h_udp {
             v.push(("udp", format!("{:?}", self.sockets.get::<udp::Socket>(h))));
         }
+        if let Some(h) = self.h_udp_unbound {
+            v.push(("udp-unbound", format!("{:?}", self.sockets.get::<udp::Socket>(h))));
+        }
+        if let Some(h) = self.h_udp_closed {
+            v.push(("udp-closed", format!("{:?}", self.sockets.get::<udp::Socket>(h))));
+        }
         if let Some(h) = self.h_icmp_ident {
             v.push(("icmp-ident", format!("{:?}", self.sockets.get::<icmp::Socket>(h))));
         }
@@ -424,6 +462,38 @@ pub fn lowpan_frame(pan: u16, ll_dst: Ieee802154Address, ll_src: Ieee802154Addre
     let il = iphc.buffer_len();
     let mut f = vec![0u8; hl + il + l4.len()];
     ieee.emit(&mut Ieee802154Frame::new_unchecked(&mut f[..hl]));
+    iphc.emit(&mut SixlowpanIphcPacket::new_unchecked(&mut f[hl..hl + il]));
+    f[hl + il..].copy_from_slice(l4);
+    f
+}
+
+/// 802.15.4 data frame WITHOUT destination addressing (frame control 0xc001: data, dst mode
+/// none, src mode extended, no PAN id compression => the source PAN id is present), MAC header
+/// built byte-wise: `01 c0 <seq> <src pan LE> <src ext addr, transmitted reversed>`; followed by an
+/// IPHC header that carries the IPv6 destination inline (no link-layer destination to derive it
+/// from) and the upper layer bytes. Per IEEE 802.15.4 such a frame is for the PAN coordinator of
+/// the source PAN.
+pub fn lowpan_frame_no_dst(src_pan: u16, ll_src: [u8; 8], src: &Addr, dst: &Addr, proto: u8, hop: u8, l4: &[u8]) -> Vec<u8> {
+    use smoltcp::wire::{SixlowpanIphcPacket, SixlowpanIphcRepr, SixlowpanNextHeader};
+    let (Addr::V6(s), Addr::V6(d)) = (src, dst) else { panic!("6LoWPAN carries IPv6 only") };
+    let mut f = vec![0x01, 0xc0, 7, src_pan as u8, (src_pan >> 8) as u8];
+    let mut rev = ll_src;
+    rev.reverse();
+    f.extend_from_slice(&rev);
+    let iphc = SixlowpanIphcRepr {
+        src_addr: Ipv6Address::from(*s),
+        ll_src_addr: Some(Ieee802154Address::Extended(ll_src)),
+        dst_addr: Ipv6Address::from(*d),
+        ll_dst_addr: None,
+        next_header: SixlowpanNextHeader::Uncompressed(IpProtocol::from(proto)),
+        hop_limit: hop,
+        ecn: None,
+        dscp: None,
+        flow_label: None,
+    };
+    let hl = f.len();
+    let il = iphc.buffer_len();
+    f.resize(hl + il + l4.len(), 0);
     iphc.emit(&mut SixlowpanIphcPacket::new_unchecked(&mut f[hl..hl + il]));
     f[hl + il..].copy_from_slice(l4);
     f
